@@ -28,6 +28,9 @@ Plan gen_c18(uint64_t seed, int tier)
   }
   fix_timescale(p);
   p.threads.resize(static_cast<size_t>(nthreads));
+  // fault variant (C10 x C18): a sink throws while a stored statement is replayed
+  bool sink_faults = r.chance(1, 3);
+  int64_t const nsinks_cfg = p.cfg["nsinks"];
   for (int t = 0; t < nthreads; ++t)
   {
     auto& ops = p.threads[static_cast<size_t>(t)];
@@ -46,7 +49,8 @@ Plan gen_c18(uint64_t seed, int tier)
       }
       for (int64_t i = 0; i < nstore; ++i)
       {
-        ops.push_back(Op{OP_BT_LOG, lg, 0, 0, static_cast<int64_t>(r.next() >> 8), static_cast<int64_t>(r.below(30)), 0});
+        int64_t fb = (sink_faults && r.chance(1, 6)) ? (int64_t{1} << r.below(static_cast<uint32_t>(nsinks_cfg))) : 0;
+        ops.push_back(Op{OP_BT_LOG, lg, 0, 0, static_cast<int64_t>(r.next() >> 8), static_cast<int64_t>(r.below(30)), fb});
         if (r.chance(1, 4))
         {
           // ordinary statements below the flush level in between
@@ -99,6 +103,7 @@ Verdict judge_c18(Plan const& p, History const& h, RunInfoLite const& ri)
     return v;
   }
   Model m = Model::build(p, h);
+  uint64_t faulty_replays = 0;
   uint64_t flushes = 0, wrapped_flushes = 0, second_cycle_after_wrap = 0, replayed = 0, reinit = 0;
   // per logger (= per writer thread): replay the thread's program on a reference ring and derive the exact
   // sequence of ids every sink of the logger must receive
@@ -205,7 +210,53 @@ Verdict judge_c18(Plan const& p, History const& h, RunInfoLite const& ri)
         }
         got.push_back(w.id);
       }
-      if (got != want)
+      // a statement whose replay made sink f throw may be missing from sink f and the sinks after it — nothing else
+      std::set<int64_t> optional;
+      for (int64_t id : want)
+      {
+        Issued const& wi = m.issued.at(id);
+        int64_t throwers = wi.fault_bits & FB_SINK_THROW_MASK & mask;
+        if (throwers)
+        {
+          int first = 0;
+          while (!((throwers >> first) & 1))
+          {
+            ++first;
+          }
+          if (static_cast<int>(s) >= first)
+          {
+            optional.insert(id);
+          }
+        }
+      }
+      std::vector<int64_t> got_f, want_f;
+      for (int64_t id : got)
+      {
+        if (!optional.count(id))
+        {
+          got_f.push_back(id);
+        }
+      }
+      for (int64_t id : want)
+      {
+        if (!optional.count(id))
+        {
+          want_f.push_back(id);
+        }
+      }
+      bool optional_dup = false;
+      {
+        std::set<int64_t> seen_opt;
+        for (int64_t id : got)
+        {
+          if (optional.count(id) && !seen_opt.insert(id).second)
+          {
+            optional_dup = true;
+          }
+        }
+      }
+      faulty_replays += optional.size();
+      if (got_f != want_f || optional_dup)
       {
         // classify
         std::string tag = "backtrace_replay_differs_from_model";
@@ -221,6 +272,7 @@ Verdict judge_c18(Plan const& p, History const& h, RunInfoLite const& ri)
         }
         f["duplicate"] = dup ? "1" : "0";
         f["after_wrapped_flush"] = had_wrapped_flush ? "1" : "0";
+        f["sink_threw_during_a_replay"] = optional.empty() ? "0" : "1";
         return violation(tag, "logger " + std::to_string(lg) + " sink " + std::to_string(s) + ": got " + ids_to_string(got, 40) +
                                 " want " + ids_to_string(want, 40),
                          f);
@@ -233,6 +285,7 @@ Verdict judge_c18(Plan const& p, History const& h, RunInfoLite const& ri)
   v.probes["nonempty_flush_after_an_earlier_wrapped_flush"] = second_cycle_after_wrap;
   v.probes["statements_replayed"] = replayed;
   v.probes["reinitialisations"] = reinit;
+  v.probes["replayed_statements_with_a_throwing_sink"] = faulty_replays;
   return v;
 }
 
